@@ -1261,6 +1261,7 @@ impl Planner {
             && variable == scan_variable
         {
             return self.plan_range_filter(
+                filter,
                 &scan_variable,
                 &scan_label,
                 &property,
@@ -1286,6 +1287,7 @@ impl Planner {
                 _ => return Ok(None),
             };
             return self.plan_range_filter(
+                filter,
                 &scan_variable,
                 &scan_label,
                 &property,
@@ -1304,6 +1306,7 @@ impl Planner {
     /// Plans a range filter using `find_nodes_in_range`.
     fn plan_range_filter(
         &self,
+        filter: &FilterOp,
         scan_variable: &str,
         scan_label: &Option<String>,
         property: &str,
@@ -1329,7 +1332,19 @@ impl Planner {
         let node_list_op = Box::new(NodeListOperator::new(matching_nodes, 2048));
         let columns = vec![scan_variable.to_string()];
 
-        Ok(Some((node_list_op, columns)))
+        // The range lookup narrows the candidates; the predicate itself decides
+        // (it does not order booleans, for instance, which the lookup does)
+        let variable_columns: HashMap<String, usize> = columns
+            .iter()
+            .enumerate()
+            .map(|(i, name)| (name.clone(), i))
+            .collect();
+        let filter_expr = self.convert_expression(&filter.predicate)?;
+        let predicate =
+            ExpressionPredicate::new(filter_expr, variable_columns, Arc::clone(&self.store));
+        let operator = Box::new(FilterOperator::new(node_list_op, Box::new(predicate)));
+
+        Ok(Some((operator, columns)))
     }
 
     /// Extracts a simple range predicate (>, <, >=, <=) from an expression.
